@@ -1103,6 +1103,12 @@ pub fn probe(m: &'static Module, ds: &[i128], names: &[&'static str]) -> (u64, u
             p!(f(0, *d));
             p!(f(0, d.wrapping_add(1)));
             p!(f(0, d.wrapping_sub(1)));
+            // congruent to a declared discriminant modulo a narrower width (a bound check done
+            // after a narrowing cast would let these through)
+            for sh in [8u32, 16, 32, 64] {
+                p!(f(0, d.wrapping_add(1i128 << sh)));
+                p!(f(0, d.wrapping_sub(1i128 << sh)));
+            }
             p!(f(1, 0));
             p!(f(2, 0));
         }
